@@ -279,6 +279,19 @@ UNITS = {
         extra='ctrl_rules',
         items=[],
     ),
+    # C06 / C02: RawIterHashInner::next (HashTable::iter_hash): yielded indices are in range and FULL, terminates
+    'iterhash': dict(
+        widths=[16, 8],
+        prelude='preludes/ctrl.rs',
+        prelude_extra=['preludes/iterhash.rs'],
+        specs=['contracts/ctrl.vspec', 'contracts/iterhash.vspec'],
+        lemmas=['lemmas/ctrl_lemmas.rs', 'lemmas/mask_lemmas.rs', 'lemmas/probe_lemmas.rs', 'lemmas/loop_lemmas.rs', 'lemmas/iterhash_lemmas.rs'],
+        extra='iter_rules',
+        items=[
+            I(RAW, r'^impl ProbeSeq$', 'move_next', impl='ProbeSeq'),
+            dict(I(RAW, r'^impl Iterator for RawIterHashInner$', 'next', impl='RawIterHashInner', key='RawIterHashInner::next'), value_type=['usize']),
+        ],
+    ),
 }
 
 
@@ -686,6 +699,11 @@ def iter_rules(toks, i, out, hit):
         out.extend([T('self', t.gap), T('.', ''), T('drop_bucket', ''), T('(', ''), T('&', ''), T('item', ''), T(')', '')])
         hit('R21_bucket_drop_recorded')
         return i + 5
+    # R28b: the iterator's associated type in a signature: `Self::Item` -> the concrete item type of the impl
+    if t.text == 'Self' and i + 3 < n and [x.text for x in toks[i + 1:i + 4]] == [':', ':', 'Item'] and _FLAGS.get('value_type'):
+        out.extend([extract.T(x, t.gap if k == 0 else '') for k, x in enumerate(_FLAGS['value_type'])])
+        hit('R28b_iterator_item_type')
+        return i + 4
     # R15d: NonNull<u8> is the same index: `.as_ptr()` dropped, `NonNull::new_unchecked(E)` -> `(E)`, type `NonNull<u8>` -> `usize`
     if t.text == '.' and i + 3 < n and [x.text for x in toks[i + 1:i + 4]] == ['as_ptr', '(', ')']:
         hit('R15d_nonnull_as_ptr_dropped')
